@@ -56,6 +56,7 @@ func validateUnionCases(env *Environment, errorSink *validation.ErrorSink) *Envi
 	tagTypeMap := make(map[string]Type)
 	// a union written as a type argument is visited directly and through the instantiated definition
 	nestedUnionsReported := make(map[string]bool)
+	visitedSimpleTypes := make(map[*SimpleType]bool)
 
 	VisitWithContext(env, false, func(self VisitorWithContext[bool], node Node, visitingReference bool) {
 		switch t := node.(type) {
@@ -212,6 +213,12 @@ func validateUnionCases(env *Environment, errorSink *validation.ErrorSink) *Envi
 			self.VisitChildren(node, visitingReference)
 
 		case *SimpleType:
+			// the same written type is reached again through every instantiated definition that has it as a type argument:
+			// checking it once is enough (and keeps W<W<W<...>>> from costing 2^depth visits)
+			if visitedSimpleTypes[t] {
+				return
+			}
+			visitedSimpleTypes[t] = true
 			// type arguments written inline are types in their own right
 			self.VisitChildren(node, visitingReference)
 			if len(t.ResolvedDefinition.GetDefinitionMeta().TypeArguments) > 0 {
